@@ -16,6 +16,50 @@ func checkC13(c *Ctx) {
 	c.Rule("C13.route", "MUST-PASS: on every group that has a ClearCofactor operation, each of MapToG*, EncodeToG*, HashToG* passes its result through ClearCofactor before every return; on the curves with an isogeny (SSWU), the result of every MapToCurve call is passed through the isogeny first", 20)
 	c.Rule("C13.limbs", "MONTGOMERY-LIMBS (L19): outside the field packages no limb of a field element in Montgomery form is used as a number (parity for sgn0, ordering, bit tests); only values produced by Bits()/fromMont may be inspected limb-wise. The decoder scratch byte in unsafeComputeY is a listed exception", 100)
 
+	// constant-time selects: CMOV(a, b, v != 0) — the flag of a Select that comes from a zero test is
+	// a test of one of the objects taking part in the select (the exceptional case of SSWU step 7
+	// replaces -tv2 by Z exactly when tv2 vanishes)
+	c.Rule("C13.select", "SELECT-FLAG: where the condition of a constant-time Select is the result of a zero test (NotZero / IsZero) of an object v, v is the destination or one of the two alternatives of that Select: the exceptional value is substituted for the quantity that vanishes, not for another one", 10)
+	{
+		n := 0
+		var hits []Finding
+		for _, fn := range libFuncs(p, propScopes["C13"]...) {
+			for _, b := range fn.Blocks {
+				for _, in := range b.Instrs {
+					call, ok := in.(*ssa.Call)
+					if !ok || len(call.Call.Args) != 4 || calleeOf(&call.Call).Name != "Select" {
+						continue
+					}
+					flag := call.Call.Args[1]
+					for {
+						if cv, ok := flag.(*ssa.Convert); ok {
+							flag = cv.X
+							continue
+						}
+						break
+					}
+					fc, ok := flag.(*ssa.Call)
+					if !ok || len(fc.Call.Args) != 1 {
+						continue
+					}
+					nm := calleeOf(&fc.Call).Name
+					if !strings.HasSuffix(nm, "NotZero") && !strings.HasSuffix(nm, "IsZero") {
+						continue
+					}
+					n++
+					v := addrBase(fc.Call.Args[0])
+					if v != addrBase(call.Call.Args[0]) && v != addrBase(call.Call.Args[2]) && v != addrBase(call.Call.Args[3]) {
+						hits = append(hits, Finding{fn, call.Pos(), "select-flag-tests-an-operand(" + descValue(fc.Call.Args[0], 0) + ")",
+							fmt.Sprintf("%s: the Select is steered by a zero test of %s, which is neither its destination nor one of its alternatives (%s, %s): the exceptional value replaces a quantity other than the one that vanishes", funcKey(fn), descValue(fc.Call.Args[0], 0), descValue(call.Call.Args[2], 0), descValue(call.Call.Args[3], 0))})
+					}
+				}
+			}
+		}
+		c.Instance("C13.select", n)
+		reportFindings(c, p, "C13.select", nil, hits, "")
+		c.Ob("C13.select", "-", "-", "zero-test-selects-scanned", "-", n > 0, "no Select steered by a zero test found")
+	}
+
 	if fn := p.Func("field/hash", "", "ExpandMsgXmd"); fn != nil {
 		RequireFacts(c, p, "C13.guard", fn, AcceptNilErr, nil, []Req{
 			{"len>=0", `^0 <= p2$`},
